@@ -121,6 +121,10 @@ func check(c Case) *vfrun.Failure {
 			if cd.Pos.Abstract && !cd.Pos.List {
 				faults = append(faults, Fault{cd.Key, plan.Foreign})
 			}
+		} else if strings.HasPrefix(cd.Key, "@") {
+			// a directive on the operation wraps the whole execution: a panic there is outside every
+			// field and is the transport's to contain (covered through the HTTP handlers elsewhere)
+			faults = append(faults, Fault{"D:" + cd.Key, plan.Error})
 		} else {
 			faults = append(faults, Fault{"D:" + cd.Key, plan.Error}, Fault{"D:" + cd.Key, plan.Panic})
 		}
